@@ -1405,3 +1405,13 @@ Proof. vm_compute. reflexivity. Qed.
 Lemma loops_flow_sheet :
   exists sheet, export_strip N.eqb true loops_flow = Ok (Some sheet) /\ List.length sheet = 6%nat.
 Proof. eexists. vm_compute. split; reflexivity. Qed.
+
+(* an export that crashes: the only exit of the first node leads to a node that does not exist
+   (Python: ValueError in find_node) *)
+Definition dangling_flow : list (node N) := [ demo_msg 1 (lit "hello") (Some 9) ].
+Lemma dangling_flow_crashes :
+  to_rows N.eqb false dangling_flow = Err ECrash /\ to_rows_tmp N.eqb dangling_flow = Err ECrash.
+Proof. vm_compute. split; reflexivity. Qed.
+
+Lemma loops_flow_tmp : exists tmp, to_rows_tmp N.eqb loops_flow = Ok tmp /\ List.length tmp = 6%nat.
+Proof. eexists. vm_compute. split; reflexivity. Qed.
